@@ -29,6 +29,15 @@ static bool in_subtree(uint32_t node, uint32_t root) {
 	return (node & mask) == (root & mask);
 }
 
+// what the library itself reports as the occupied part of a node's response budget (last "Used output buffer ..." log line per node)
+static std::map<uint32_t, int> g_lib_used;
+static void flow_syslog_hook(int, const char *msg) {
+	const char *p = strstr(msg, "Used output buffer for 0x");
+	if (!p) return;
+	unsigned a, b, c, d; int n;
+	if (sscanf(p, "Used output buffer for 0x%x 0x%x 0x%x 0x%x is %d bytes", &a, &b, &c, &d, &n) == 5) g_lib_used[(a << 16) | (b << 8) | c] = n;
+}
+
 struct Flow : Prop {
 	bool is_c04;
 	explicit Flow(bool c04) : is_c04(c04) {}
@@ -188,7 +197,7 @@ struct Flow : Prop {
 	std::map<uint32_t, std::vector<Out>> safe_q, live_q;      // outstanding per node: lenient-low / lenient-high
 	std::vector<StallWin> wins;
 	std::map<uint32_t, std::vector<size_t>> wire_per_node;     // sub indices in wire order
-	uint64_t n_def_deferred = 0, n_stall_stamped = 0, n_deferred = 0, n_expired = 0, n_alt = 0, n_released_after_stall = 0, n_due_checked = 0, max_budget = 0, n_hol = 0;
+	uint64_t n_model_ahead_of_library = 0, n_def_deferred = 0, n_stall_stamped = 0, n_deferred = 0, n_expired = 0, n_alt = 0, n_released_after_stall = 0, n_due_checked = 0, max_budget = 0, n_hol = 0;
 	bool healed = false;
 	Engine *E = nullptr;
 	struct Trigger { std::vector<size_t> held; std::string why; };
@@ -233,7 +242,7 @@ struct Flow : Prop {
 	void attach(Engine &e) override {
 		E = &e;
 		subs.clear(); starts_seen = 0; by_key.clear(); safe_q.clear(); live_q.clear(); wins.clear(); wire_per_node.clear();
-		n_def_deferred = n_deferred = n_expired = n_alt = n_released_after_stall = n_due_checked = max_budget = n_hol = 0; healed = false; triggers.clear(); credits.clear(); live_changed.clear();
+		n_model_ahead_of_library = 0; g_lib_used.clear(); sim::hooks().on_syslog = flow_syslog_hook; n_def_deferred = n_deferred = n_expired = n_alt = n_released_after_stall = n_due_checked = max_budget = n_hol = 0; healed = false; triggers.clear(); credits.clear(); live_changed.clear();
 
 		e.bus.on_wire = [this, &e](const bus::WireRec &w) {
 			ingest_starts(e);
@@ -373,6 +382,13 @@ struct Flow : Prop {
 					held.push_back(i); maxsz = std::max(maxsz, subs[i].size);
 				}
 				if (inflight || held.empty()) continue;
+				// The upper-bound model is only an upper bound while its queue and the library's have not drifted apart: the library decides "expired" in whole
+				// seconds from the moment it admitted a request, the model from the moment the request was written, and whether the oldest request
+				// accepts a message decides between "free one" and "expire all". Once they disagree about one head, the model can expire wholesale what the
+				// library still keeps. The library reports its own figure after every update (debug log line); a trigger is only noted when that
+				// figure leaves room as well (a library that never frees its budget is caught by the exactly-once check after the heal phase).
+				auto lu = g_lib_used.find(nk);
+				if (lu != g_lib_used.end() && lu->second + maxsz > 48) { n_model_ahead_of_library++; continue; }
 				if (sum(lq) + maxsz <= 48) {
 					char d[260]; snprintf(d, sizeof d, "after a message (type 0x%02x) from node %s was processed at step %llu the node was not stalled and had %d bytes of responses outstanding, room for any of its %zu held messages (largest %d bytes)",
 					                      m.type, m.addr_str().c_str(), (unsigned long long) f.processed_step, sum(lq), held.size(), maxsz);
@@ -461,7 +477,7 @@ struct Flow : Prop {
 		p.set("due_messages_checked", (long long) n_due_checked); p.set("stall_windows", (long long) wins.size()); p.set("held_by_ancestor_stall_then_released", (long long) held_by_ancestor);
 		p.set("max_model_budget_ge_40", max_budget >= 40 ? 1 : 0); p.set("submitted", (long long) subs.size());
 		uint64_t root_stalls = 0; for (auto &w : wins) if (w.depth == 0) root_stalls++;
-		p.set("stall_from_interface", (long long) root_stalls); p.set("requests_known_to_have_been_held_back", (long long) n_def_deferred); p.set("requests_held_by_a_stall_and_stamped_at_its_end", (long long) n_stall_stamped);
+		p.set("stall_from_interface", (long long) root_stalls); p.set("requests_known_to_have_been_held_back", (long long) n_def_deferred); p.set("stranded_checks_skipped_because_the_librarys_own_figure_had_no_room", (long long) n_model_ahead_of_library); p.set("requests_held_by_a_stall_and_stamped_at_its_end", (long long) n_stall_stamped);
 		{ long long fl = 0, ob = 0; for (size_t q = 0; q < e.plan["sessions"][0]["phases"].size(); q++) { if (e.plan["sessions"][0]["phases"][q].getb("stall_flood")) fl++; if (e.plan["sessions"][0]["phases"][q].getb("stall_overbudget")) ob++; } if (is_c04) { p.set("focused_stall_with_130_to_170_held_messages", fl); p.set("focused_stall_with_more_requests_than_one_budget", ob); } }
 		f.set("probes", p);
 	}
